@@ -7,7 +7,7 @@ echo "# Seeded changes vs checks (quick tier, VERIF_SEED=${VERIF_SEED:-0}, repo 
 echo
 echo "| change | property check | exit | seconds | what the check reported |"
 echo "|---|---|---|---|---|"
-for d in seeded/C*-m*/; do
+for d in seeded/C*/; do
   name=$(basename "$d"); id=${name%%-*}
   line=$(tools/mutant_run.sh "$name" "$id" 2>&1 | tail -1)
   rc=$(echo "$line" | sed -E 's/.* rc=([0-9]+) .*/\1/'); t=$(echo "$line" | sed -E 's/.* t=([0-9]+)s.*/\1/')
